@@ -90,6 +90,18 @@ class Check(RuntimeCheck):
                         evs.append({'verify': scn.verify, 'drop': scn.drop, 'report': scn.report, 'nv-report': scn.report}[end](0))
                         out.append(scn.scenario(f"x{k}", evs))
                         k += 1
+        # every tuple arity 2..16 is its own `Clause` impl: a flat tuple of n clauses on distinct (method, argument) pairs, verified
+        # (a) with all but the last clause satisfied, (b) with nothing called, (c) unordered clauses with every second one unmet
+        from .c14 import leaf, leaf_call, ORD
+        for n in range(2, 17):
+            tree = tup([leaf(j) for j in range(n)])
+            for end in ('verify', 'drop'):
+                evs = [scn.build(0, 0, 'strict', tree)] + [leaf_call(j) for j in range(n - 1)] + [{'verify': scn.verify, 'drop': scn.drop}[end](0)]
+                out.append(scn.scenario(f"ar{n}last_{end}", evs))
+            out.append(scn.scenario(f"ar{n}none", [scn.build(0, 0, 'strict', tree), scn.verify(0)]))
+            utree = tup([term(ORD[j % 4], 'each', Pat(mask=1 << (j // 4), chain=[seg(f"ret{j + 1}", 'n1')])) for j in range(n)])
+            evs = [scn.build(0, 0, 'strict', utree)] + [leaf_call(j) for j in range(n) if j % 2 == 0] + [scn.verify(0)]
+            out.append(scn.scenario(f"ar{n}odd", evs))
         return [('exhaustive', ''.join(out))]
 
     def profiles(self, tier):
